@@ -136,7 +136,7 @@ impl State {
             _ => {}
         }
         // every other op names an endpoint as its first argument (deliver: the destination is last)
-        let e = if toks[0] == "deliver" { n(toks[3]) as usize } else if toks[0] == "relay" { n(toks[2]) as usize } else { n(toks[1]) as usize };
+        let e = if toks[0] == "deliver" || toks[0] == "replayack" { n(toks[3]) as usize } else if toks[0] == "relay" { n(toks[2]) as usize } else { n(toks[1]) as usize };
         if self.eps[e].as_ref().map_or(true, |ep| ep.poisoned) {
             writeln!(out, "skipped").unwrap();
             return;
@@ -148,6 +148,17 @@ impl State {
             match self.eps[src].as_ref() {
                 Some(s) if !s.outbox.is_empty() => Some(s.outbox[k % s.outbox.len()].clone()),
                 _ => None,
+            }
+        } else if toks[0] == "replayack" {
+            // the k-th ack frame (type id 12) the source has emitted so far
+            let src = n(toks[1]) as usize;
+            let k = n(toks[2]) as usize;
+            match self.eps[src].as_ref() {
+                Some(s) => {
+                    let acks: Vec<&Vec<u8>> = s.outbox.iter().filter(|f| !f.is_empty() && f[0] == 12).collect();
+                    if acks.is_empty() { None } else { Some(acks[k % acks.len()].clone()) }
+                }
+                None => None,
             }
         } else { None };
         let relayed: Vec<Vec<u8>> = if toks[0] == "relay" {
@@ -197,7 +208,7 @@ impl State {
                     }
                     if let Err(p) = r { panic::resume_unwind(p); }
                 }
-                "deliver" => {
+                "deliver" | "replayack" => {
                     match delivered {
                         None => lines.push("deliver: nothing".to_string()),
                         Some(ref bytes) => match fr::Frame::read(bytes) {
